@@ -1,200 +1,4 @@
 /-
-  Helper lemmas for `Proofs/Core.lean`, part 1: unfolding lemmas for the mutually recursive reader and writer
-  (each function is unfolded exactly once, here), `Except` plumbing, and the extension theorem `read_extend`.
+  Helper lemmas for `Proofs/Core.lean`. The lemmas are split over `Proofs/Lemmas/Core*.lean`; this file collects them.
 -/
-import Proofs.Spec.Core
-namespace Cstruct.Core.Lemmas
-open Cstruct Cstruct.Core
-
-/-! ### `Except` plumbing -/
-
-theorem bind_ok {ε α β} {x : Except ε α} {f : α → Except ε β} {b : β} (h : x.bind f = .ok b) :
-    ∃ a, x = .ok a ∧ f a = .ok b := by
-  cases x with
-  | error e => simp [Except.bind] at h
-  | ok a => exact ⟨a, rfl, h⟩
-
-theorem bind_ok_iff {ε α β} {x : Except ε α} {f : α → Except ε β} {b : β} :
-    x.bind f = .ok b ↔ ∃ a, x = .ok a ∧ f a = .ok b := by
-  constructor
-  · exact bind_ok
-  · rintro ⟨a, rfl, h⟩; exact h
-
-theorem map_ok {ε α β} {x : Except ε α} {f : α → β} {b : β} (h : x.map f = .ok b) :
-    ∃ a, x = .ok a ∧ f a = b := by
-  cases x with
-  | error e => simp [Except.map] at h
-  | ok a => simp [Except.map] at h; exact ⟨a, rfl, h⟩
-
-/-- close goals of the form `(match x with | .error e => .error e | .ok (a, b) => match y with …) = x.bind …` -/
-macro "ex2" : tactic => `(tactic| (
-  split
-  · rename_i h; rw [h]; rfl
-  · rename_i h; rw [h]; simp only [Except.bind]; split <;> rename_i h2 <;> rw [h2]))
-
-/-! ### Unfolding the reader -/
-
-theorem read_sc (cfg : Cfg) (s a ctx data pos) : read cfg (.sc s a) ctx data pos = readScalar cfg s data pos := by
-  rw [read]
-
-/-- wrap an integer result -/
-def wrapInt (f : Int → Val) : Except Err (Val × Nat) → Except Err (Val × Nat)
-  | .ok (.int v, p) => .ok (f v, p)
-  | .ok _ => .error .typeErr
-  | .error e => .error e
-
-theorem read_enum (cfg : Cfg) (b a f ctx data pos) :
-    read cfg (.enum b a f) ctx data pos = wrapInt .enum (readScalar cfg b data pos) := by
-  rw [read]; rfl
-
-theorem read_ptr (cfg : Cfg) (t ctx data pos) :
-    read cfg (.ptr t) ctx data pos = wrapInt .ptr (readScalar cfg cfg.ptr data pos) := by
-  rw [read]; rfl
-
-theorem read_arr_fixed (cfg : Cfg) (e n ctx data pos) :
-    read cfg (.arr e (.fixed n)) ctx data pos = readArray cfg e n ctx data pos := by
-  rw [read]
-
-theorem read_arr_null (cfg : Cfg) (e ctx data pos) :
-    read cfg (.arr e .nullTerm) ctx data pos = read0 cfg e ctx data pos := by
-  rw [read]
-
-theorem read_arr_expr (cfg : Cfg) (e toks ctx data pos) :
-    read cfg (.arr e (.expr toks)) ctx data pos =
-      (evalLen cfg toks ctx).bind fun n => readArray cfg e n ctx data pos := by
-  rw [read]; cases evalLen cfg toks ctx <;> rfl
-
-theorem read_struct (cfg : Cfg) (al fs ctx data pos) :
-    read cfg (.struct al fs) ctx data pos =
-      (structLayout cfg al fs).bind fun (_, salign, offs) =>
-        (readFields cfg al fs offs pos BitBuf.empty [] data pos).bind fun (vs, _, p) =>
-          .ok (.record vs, if al then p + padNat p salign else p) := by
-  rw [read]
-  cases structLayout cfg al fs with
-  | error e => rfl
-  | ok r =>
-    obtain ⟨a, b, c⟩ := r
-    simp only [Except.bind]
-    cases readFields cfg al fs c pos BitBuf.empty [] data pos with
-    | error e => rfl
-    | ok r => rfl
-
-theorem readN_zero (cfg : Cfg) (t ctx data pos) : readN cfg t 0 ctx data pos = .ok (.nil, pos) := by
-  rw [readN]
-
-theorem readN_succ (cfg : Cfg) (t n ctx data pos) :
-    readN cfg t (n + 1) ctx data pos =
-      (read cfg t ctx data pos).bind fun (v, p) =>
-        (readN cfg t n ctx data p).bind fun (vs, p') => .ok (.cons v vs, p') := by
-  rw [readN]; ex2
-
-theorem readFields_nil (cfg : Cfg) (al offs start bb ctx data pos) :
-    readFields cfg al .nil offs start bb ctx data pos = .ok (.nil, [], pos) := by
-  rw [readFields]
-
-/-- the position at which a field is read: seek to the layout offset if there is one, else pad in aligned mode -/
-def fieldPos (cfg : Cfg) (al : Bool) (ty : Ty) (foff : Option Nat) (start pos : Nat) : Nat :=
-  let offset1 := match foff with | some fo => start + fo | none => pos
-  if al ∧ foff.isNone then offset1 + padNat offset1 (ty.alignment cfg) else offset1
-
-/-- a proper bit-field width -/
-def isBitW : Option Nat → Bool | some (_ + 1) => true | _ => false
-
-theorem readFields_cons_nobits (cfg : Cfg) (al name an ty bits rest offs start bb ctx data pos)
-    (hb : isBitW bits = false) :
-    readFields cfg al (.cons name an ty bits rest) offs start bb ctx data pos =
-      (read cfg ty ctx data (fieldPos cfg al ty offs.head?.join start pos)).bind fun (v, p1) =>
-        (readFields cfg al rest (offs.drop 1) start BitBuf.empty (ctx.set name v) data p1).bind fun (vs, szs, p') =>
-          .ok (.cons v vs, (name, p1 - fieldPos cfg al ty offs.head?.join start pos) :: szs, p') := by
-  rw [readFields.eq_def]
-  cases bits with
-  | none =>
-    cases offs with
-    | nil => simp [fieldPos]; ex2
-    | cons o t => cases o <;> simp [fieldPos] <;> ex2
-  | some b =>
-    cases b with
-    | zero =>
-      cases offs with
-      | nil => simp [fieldPos]; ex2
-      | cons o t => cases o <;> simp [fieldPos] <;> ex2
-    | succ b => simp [isBitW] at hb
-
-/-- `BitBuffer.read`'s "load a new unit when exhausted or the storage type changes" -/
-def loadUnit (cfg : Cfg) (ft : Scalar) (bb : BitBuf) (data : Bytes) (off : Nat) : Except Err (BitBuf × Nat) :=
-  if bb.remaining = 0 ∨ bb.ty ≠ some ft then
-    match ft.size with
-    | none => .error .value
-    | some fsz =>
-      match readScalar cfg ft data off with
-      | .error e => .error e
-      | .ok (u, p) =>
-        match unitInt cfg u with
-        | some i => .ok ({ ty := some ft, buffer := i, remaining := fsz * 8 }, p)
-        | none => .error .typeErr
-  else .ok (bb, off)
-
-def bitVal (ty : Ty) (v : Int) : Val := match ty with | .enum _ _ _ => .enum v | _ => .int v
-
-set_option hygiene false in
-macro "bits_tac" : tactic => `(tactic| (
-    rcases offs with _ | ⟨_ | o, t⟩ <;>
-    · simp only [List.head?, Option.join, Option.bind, fieldPos, loadUnit, id]
-      split
-      · rename_i hc
-        simp only [hc, if_true]
-        split
-        · rfl
-        · simp only []
-          generalize hl : readScalar _ _ _ _ = r
-          generalize hr : readScalar _ _ _ _ = r2
-          have : r2 = r := by rw [← hl, ← hr]; congr
-          subst this
-          cases r2 with
-          | error e => rfl
-          | ok r =>
-            obtain ⟨u, p⟩ := r
-            simp only []
-            split
-            · simp only [Except.bind]
-              generalize BitBuf.take _ _ _ = r
-              cases r with
-              | none => rfl
-              | some r =>
-                obtain ⟨v, bb2⟩ := r
-                simp only []
-                generalize readFields _ _ _ _ _ bb2 _ _ _ = r
-                cases r <;> rfl
-            · rfl
-      · rename_i hc
-        simp only [hc, if_false, Except.bind]
-        generalize BitBuf.take _ _ _ = r
-        cases r with
-        | none => rfl
-        | some r =>
-          obtain ⟨v, bb2⟩ := r
-          simp only []
-          generalize readFields _ _ _ _ _ bb2 _ _ _ = r
-          cases r <;> rfl))
-
-theorem readFields_cons_bits (cfg : Cfg) (al name an ty b rest offs start bb ctx data pos) :
-    readFields cfg al (.cons name an ty (some (b + 1)) rest) offs start bb ctx data pos =
-      match ty.bitBase with
-      | none => .error .typeErr
-      | some ft =>
-        (loadUnit cfg ft bb data (fieldPos cfg al ty offs.head?.join start pos)).bind fun (bb1, p1) =>
-          match bb1.take cfg.endian (b + 1) with
-          | none => .error .value
-          | some (v, bb2) =>
-            (readFields cfg al rest (offs.drop 1) start bb2 (ctx.set name (bitVal ty v)) data p1).bind
-              fun (vs, szs, p') => .ok (.cons (bitVal ty v) vs, szs, p') := by
-  rw [readFields.eq_def]
-  cases ty with
-  | ptr _ => rfl
-  | arr _ _ => rfl
-  | struct _ _ => rfl
-  | union _ _ => rfl
-  | sc s a => simp only [Ty.bitBase, bitVal]; bits_tac
-  | enum s a f => simp only [Ty.bitBase, bitVal]; bits_tac
-
-end Cstruct.Core.Lemmas
+import Proofs.Lemmas.CoreUnfold
